@@ -51,6 +51,7 @@ use astria_eyre::{
     eyre_to_anyhow,
 };
 use cnidarium::{
+    StateDelta,
     StateRead,
     StateWrite,
 };
@@ -382,9 +383,20 @@ impl AppHandlerExecute for Ics20Transfer {
             .map_err(|err| eyre_to_anyhow(err).context("failed to read upgrade info"))?
             .is_some();
 
-        let ack = match receive_tokens(&mut state, &msg.packet).await {
-            Ok(()) => TokenTransferAcknowledgement::success(),
+        // Execute the transfer on a nested delta so that writes performed before a failure
+        // (deposit events, cached deposits, escrow balance changes) are discarded together
+        // with the delta if the transfer is acknowledged with an error.
+        let mut delta = StateDelta::new(&mut state);
+        let ack = match receive_tokens(&mut delta, &msg.packet).await {
+            Ok(()) => {
+                let (state, events) = delta.apply();
+                for event in events {
+                    state.record(event);
+                }
+                TokenTransferAcknowledgement::success()
+            }
             Err(e) => {
+                drop(delta);
                 tracing::warn!(
                     error = AsRef::<dyn std::error::Error>::as_ref(&e),
                     "failed to execute ics20 transfer"
